@@ -146,6 +146,23 @@ let handle (line : string) =
   | "EVAL" :: id :: mode :: p :: n :: k :: names :: upd :: unit_s :: ctx :: formulas :: _ ->
       let p = int_of_string p and n = int_of_string n and k = int_of_string k in
       let w = world_of p n names upd unit_s in
+      (* hypotheses of the theorems, checked on every case: tables of the right size, the unit
+         set constrains colours only *)
+      let size = 1 lsl (p + n) in
+      let block = 1 lsl n in
+      let colour_only =
+        let ok = ref (String.length unit_s = size) in
+        if !ok then
+          for c = 0 to (1 lsl p) - 1 do
+            for j = 1 to block - 1 do
+              if unit_s.[c * block + j] <> unit_s.[c * block] then ok := false
+            done
+          done;
+        !ok in
+      let tables_ok = List.for_all (fun t -> String.length t = size) (split_on ',' upd)
+                      && List.length (split_on ',' upd) = n
+                      && List.length (split_on ',' names) = n in
+      if not (colour_only && tables_ok) then Printf.printf "%s HYP unit-or-tables-not-as-assumed\n" id;
       let ctx = ctx_of p n ctx in
       let fs = List.map str_of_hex (split_on ',' formulas) in
       if has 'o' mode then begin
